@@ -15,6 +15,7 @@ package main
 // Everything else - in particular the constructor's raw input - may contain '+'.
 
 import (
+	"os"
 	"fmt"
 	"go/token"
 	"go/types"
@@ -395,4 +396,92 @@ func ruleBuildFree(p *Prog, r *Report) {
 
 func init() {
 	register("C08", "", ruleBuildFree)
+}
+
+// ---- R-PRE-TEXT: the pre-release text reaches Compare as written ------------------------------------------
+//
+// SemVer orders alphanumeric identifiers in ASCII order and compares every identifier of the list. The
+// text field(s) of Version that Compare reads must therefore be cut out of the input only: a case mapping
+// on the way (ToLower on the whole version to accept "V1.2.3") makes RC and rc the same identifier and
+// moves upper-case identifiers behind lower-case ones; a bounded split (SplitN) glues the identifiers
+// beyond the bound into one. nuget is exempt from the case clause: NuGet compares release labels without
+// regard to case and the property does not claim their case.
+func rulePreText(p *Prog, r *Report) {
+	for _, name := range semverFamily {
+		var e *Eco
+		for _, x := range p.Ecos {
+			if x.Name == name {
+				e = x
+			}
+		}
+		if e == nil {
+			continue
+		}
+		ef := ecoFieldInfo(p, e)
+		readByCompare := map[int]bool{}
+		inCompare := p.RepoReachable(e.Compare)
+		for _, fn := range inCompare {
+			for _, b := range fn.Blocks {
+				for _, ins := range b.Instrs {
+					if fa, ok := ins.(*ssa.FieldAddr); ok {
+						if pt, ok := fa.X.Type().Underlying().(*types.Pointer); ok && types.Identical(pt.Elem(), e.VerT) {
+							readByCompare[fa.Field] = true
+						}
+					}
+				}
+			}
+		}
+		key := name + ": the pre-release text Compare reads is the text of the input"
+		var bad []string
+		n := 0
+		for i := 0; ef.st != nil && i < ef.st.NumFields(); i++ {
+			f := ef.st.Field(i)
+			if !readByCompare[i] || !(isStringType(f.Type()) || isStringSlice(f.Type())) {
+				continue
+			}
+			n++
+			if os.Getenv("GVDEBUG") == "pre" {
+				fmt.Fprintf(os.Stderr, "pre %s.%s via=%v pre=%v\n", name, f.Name(), ef.prov[i].via, ef.prov[i].pre)
+			}
+			// what the constructor itself does to the text (callers of NewVersion are not followed)
+			loc := &fieldProv{via: map[string]bool{}, local: true}
+			for _, sv := range fieldStoredValues(p, e.VerT, i) {
+				p.provWalk(sv, loc, map[ssa.Value]bool{}, 0)
+			}
+			for _, m := range []string{"ToLower", "ToUpper", "Title", "ToTitle", "Map"} {
+				if (loc.via[m] || loc.pre[m]) && name != "nuget" {
+					bad = append(bad, fmt.Sprintf("field %s passes through strings.%s on its way from the input: identifiers that differ in case become equal or change places", f.Name(), m))
+				}
+			}
+		}
+		// a bounded split at the identifier separator, in the constructor or in the comparison itself
+		for _, fn := range append(append([]*ssa.Function{}, inCompare...), p.RepoReachable(e.NewVer)...) {
+			for _, b := range fn.Blocks {
+				for _, ins := range b.Instrs {
+					if c, ok := ins.(*ssa.Call); ok {
+						if g := c.Call.StaticCallee(); g != nil && (extName(g) == "strings.SplitN" || extName(g) == "strings.SplitAfterN") {
+							if sep, ok := constString(c.Call.Args[1]); !ok || sep != "." {
+								continue
+							}
+							bad = append(bad, fmt.Sprintf("%s cuts its operand with a bounded split (%s): the identifiers beyond the bound are compared as one", fn.Name(), p.Pos(c.Pos())))
+						}
+					}
+				}
+			}
+		}
+		sort.Strings(bad)
+		switch {
+		case len(bad) > 0:
+			r.Bad("R-PRE-TEXT", key, p.FnPos(e.NewVer), bad[0])
+		case n == 0:
+			r.Und("R-PRE-TEXT", key, p.FnPos(e.NewVer), "no text field of Version is read by Compare")
+		default:
+			r.Ok("R-PRE-TEXT", key, p.FnPos(e.NewVer), fmt.Sprintf("%d text field(s) read by Compare, cut out of the input without case mapping or bounded split", n))
+		}
+	}
+	r.Floor("R-PRE-TEXT", 6)
+}
+
+func init() {
+	register("C08", "", rulePreText)
 }
